@@ -386,4 +386,106 @@ theorem nextFrame_spec (tl : Tail) (fs : List Frame) (st : FS) (k p : Nat)
         simp only [nextFrame, h1, hb, if_true, deliver, hb', Bool.false_eq_true, if_false]
         exact hskip
 
+theorem read_spec (tl : Tail) (fs : List Frame) (st : FS) (fuel p : Nat) (hinv : Inv st fs tl)
+    (hk : fs.length < fuel) :
+    ReadPost tl st.tunnelID st.writeEOF st.broken (pend st fs) (deliver st.tunnelID fs).2
+      fs.length p (FS.read fuel st p).1 (FS.read fuel st p).2 := by
+  unfold FS.read
+  simp only [hinv.reof, Bool.false_eq_true, if_false]
+  by_cases hbuf : st.readOff < st.readBuf.length
+  · simp only [hbuf, if_true, ReadPost]
+    have hdl : (st.readBuf.drop st.readOff).length = st.readBuf.length - st.readOff := List.length_drop
+    have hlen : ((st.readBuf.drop st.readOff).take p).length = min p (st.readBuf.length - st.readOff) := by
+      rw [List.length_take, hdl]
+    refine ⟨by rw [hlen]; exact Nat.min_le_left _ _, ?_, ?_, ?_⟩
+    · by_cases hp0 : p = 0
+      · exact Or.inl hp0
+      · right
+        intro hnil
+        have hl := congrArg List.length hnil
+        rw [hlen, List.length_nil] at hl
+        omega
+    · exact (List.take_prefix p _).trans (List.prefix_append _ _)
+    · by_cases hfull : st.readOff + ((st.readBuf.drop st.readOff).take p).length ≥ st.readBuf.length
+      · simp only [hfull, if_true]
+        refine ⟨trivial, trivial, trivial, fs, ⟨hinv.flat, hinv.tail, hinv.wf, by first | rfl | exact hinv.reof⟩, Nat.le_refl _, ?_, rfl⟩
+        have hl : ((st.readBuf.drop st.readOff).take p).length = (st.readBuf.drop st.readOff).length := by
+          rw [hlen, hdl]; rw [hlen] at hfull; omega
+        simp only [pend, List.drop_nil, List.nil_append]
+        rw [hl, List.drop_left' rfl]
+      · simp only [hfull, if_false]
+        refine ⟨trivial, trivial, trivial, fs, ⟨hinv.flat, hinv.tail, hinv.wf, by first | rfl | exact hinv.reof⟩, Nat.le_refl _, ?_, rfl⟩
+        have hl : ((st.readBuf.drop st.readOff).take p).length = p := by
+          rw [hlen]; rw [hlen] at hfull; omega
+        have hple : p ≤ (st.readBuf.drop st.readOff).length := by
+          rw [hdl]; rw [hlen] at hfull; omega
+        simp only [pend, hl]
+        rw [List.drop_append_of_le_length hple, List.drop_drop]
+  · simp only [hbuf, if_false]
+    have he : st.readBuf.drop st.readOff = [] := List.drop_of_length_le (Nat.le_of_not_lt hbuf)
+    have := nextFrame_spec tl fs st fuel p hinv.flat hinv.tail hinv.wf hinv.reof hk
+    simpa [pend, he] using this
+
+theorem readLoop_eof (fuel : Nat) (st : FS) (ps : List Nat) (h : st.readEOF = true) :
+    (readLoop fuel st ps).1 = ps.map (fun _ => RRes.eof) ∧ (readLoop fuel st ps).2 = st := by
+  induction ps with
+  | nil => simp [readLoop]
+  | cons p ps ih =>
+    have : FS.read fuel st p = (.eof, st) := by simp [FS.read, h]
+    simp [readLoop, this, ih.1, ih.2]
+
+/-- The whole read side: any sequence of `Read` calls satisfies the call-by-call check. -/
+theorem readLoop_checks (tl : Tail) (fuel : Nat) (ps : List Nat) (st : FS) (fs : List Frame)
+    (hinv : Inv st fs tl) (hk : fs.length < fuel) (eofOk : Bool)
+    (heo : eofOk = ((deliver st.tunnelID fs).2 || tl == .eof)) :
+    checkReads eofOk (!eofOk) (pend st fs) ps (readLoop fuel st ps).1 = true ∧
+    (eofOk = true → (readLoop fuel st ps).2.broken = st.broken) := by
+  induction ps generalizing st fs with
+  | nil => simp [readLoop, checkReads]
+  | cons p ps ih =>
+    have hpost := read_spec tl fs st fuel p hinv hk
+    unfold readLoop
+    cases hr : (FS.read fuel st p).1 with
+    | data d =>
+      rw [hr] at hpost
+      obtain ⟨h1, h2, h3, h4, h5, h6, fs', h7, h8, h9, h10⟩ := hpost
+      have heo' : eofOk = ((deliver (FS.read fuel st p).2.tunnelID fs').2 || tl == .eof) := by
+        rw [h4, h10]; exact heo
+      obtain ⟨i1, i2⟩ := ih (FS.read fuel st p).2 fs' h7 (Nat.lt_of_le_of_lt h8 hk) heo'
+      simp only [hr]
+      refine ⟨?_, fun he => by rw [i2 he, h6]⟩
+      simp only [checkReads, Bool.and_eq_true, decide_eq_true_eq]
+      refine ⟨⟨⟨h1, ?_⟩, ?_⟩, ?_⟩
+      · rcases h2 with h2 | h2
+        · simp [h2]
+        · cases d with
+          | nil => exact absurd rfl h2
+          | cons a b => simp
+      · exact List.isPrefixOf_iff_prefix.mpr h3
+      · rw [← h9]; exact i1
+    | eof =>
+      rw [hr] at hpost
+      obtain ⟨h1, h2, h3, h4⟩ := hpost
+      obtain ⟨e1, e2⟩ := readLoop_eof fuel (FS.read fuel st p).2 ps h3
+      simp only [hr]
+      refine ⟨?_, fun _ => by rw [e2, h4]⟩
+      have hok : eofOk = true := by
+        rw [heo]
+        rcases h2 with h2 | h2
+        · simp [h2]
+        · simp [h2]
+      simp only [checkReads, h1, List.isEmpty_nil, hok, Bool.true_and, e1, List.all_map]
+      simp
+    | err e =>
+      rw [hr] at hpost
+      obtain ⟨h1, h2, h3⟩ := hpost
+      have hno : eofOk = false := by
+        rw [heo, h2, h3]; rfl
+      simp only [hr]
+      refine ⟨?_, fun he => by rw [hno] at he; cases he⟩
+      simp [checkReads, h1, hno]
+    | fuel =>
+      rw [hr] at hpost
+      exact absurd hpost id
+
 end Tunnox.C10
